@@ -280,6 +280,15 @@ Definition digest_eqb (a b : digest) : bool :=
 (* does the op feed a connection-level Close / CloseOk? *)
 Definition is_conn_close_frame (f : frame) : bool :=
   match f with FMethod 0 (MConnClose _ _) | FMethod 0 MConnCloseOk => true | _ => false end.
+(* ... or a server Channel.Close (which notifies every consumer of the slot) *)
+Definition is_chan_close_frame (f : frame) : bool :=
+  match f with FMethod _ (MChanClose _ _) => true | _ => false end.
+Definition op_has_chan_close (o : cop) : bool :=
+  match o with
+  | OFrame (f, _) => is_chan_close_frame f
+  | OEvent (EvStream _ (Some (fs, _))) => existsb (fun '(f, _) => is_chan_close_frame f) fs
+  | _ => false
+  end.
 Definition op_has_conn_close (o : cop) : bool :=
   match o with
   | OFrame (f, _) => is_conn_close_frame f
@@ -294,7 +303,10 @@ Definition is_err_outcome (b : cobs) : bool :=
    When notifying every slot of a connection close fails midway (a full or dropped reply
    queue) with two or more slots open, WHICH slots were already notified - and which of two
    failing slots reports its error - follows the iteration order of a std HashMap, which
-   nothing fixes: both sides must fail, and the comparison stops there. *)
+   nothing fixes: both sides must fail, and the comparison stops there.  The same holds
+   inside one slot when a server Channel.Close (or a connection close) fails while notifying
+   its consumers (one of two consumers' receivers was dropped without a cancel): which of
+   them was told first is the order of the slot's consumer HashMap. *)
 Fixpoint agree (nopen : nat) (ops : list cop) (m obs : list (cobs * digest)) : bool :=
   match m, obs with
   | [], [] => true
@@ -302,7 +314,8 @@ Fixpoint agree (nopen : nat) (ops : list cop) (m obs : list (cobs * digest)) : b
       match b2 with
       | BOutcome (OPanic _) _ _ => cobs_eqb b1 b2
       | _ =>
-          if is_err_outcome b2 && (2 <=? nopen)%nat && op_has_conn_close (hd OIsDone ops)
+          if is_err_outcome b2 &&
+             (((1 <=? nopen)%nat && op_has_conn_close (hd OIsDone ops)) || op_has_chan_close (hd OIsDone ops))
           then is_err_outcome b1
           else cobs_eqb b1 b2 && digest_eqb d1 d2 &&
                agree (length (snd d2)) (tl ops) m' obs'
